@@ -772,30 +772,37 @@ fn run_txouts(inp: &[u8], brk: i64) -> String {
         Ok(p) => guard(format!("{}{}", common(inp, p.parsed().as_ref(), p.remaining()), rec.events()), || {
             let x = p.parsed();
             let mut s = format!("{} n={} empty={}", common(inp, x.as_ref(), p.remaining()), x.n(), x.is_empty() as u8);
-            // iterator (C17)
-            let mut it = x.iter();
-            write!(s, " iter0={}", it.len()).unwrap();
-            let mut hint_ok = it.size_hint() == (it.len(), Some(it.len()));
-            let mut iter_toks = vec![];
-            while let Some(o) = it.next() {
-                hint_ok &= it.size_hint() == (it.len(), Some(it.len()));
-                iter_toks.push(format!("{},{}", txout_fields(inp, &o), it.len()));
-            }
-            let ended = it.next().is_none() && it.next().is_none();
-            for t in &iter_toks {
-                write!(s, " iter={}", t).unwrap();
-            }
+            // iterator (C17): a panic while iterating is recorded, the items yielded before it are kept
+            let (iter_part, iter_toks, hint_ok, ended) = guard((" x_iterpanic=1".to_string(), vec![], true, true), || {
+                let mut part = String::new();
+                let mut it = x.iter();
+                write!(part, " iter0={}", it.len()).unwrap();
+                let mut hint_ok = it.size_hint() == (it.len(), Some(it.len()));
+                let mut iter_toks = vec![];
+                while let Some(o) = it.next() {
+                    hint_ok &= it.size_hint() == (it.len(), Some(it.len()));
+                    iter_toks.push(format!("{},{}", txout_fields(inp, &o), it.len()));
+                }
+                let ended = it.next().is_none() && it.next().is_none();
+                for t in &iter_toks {
+                    write!(part, " iter={}", t).unwrap();
+                }
+                (part, iter_toks, hint_ok, ended)
+            });
+            s.push_str(&iter_part);
             s.push_str(&rec.events());
-            // IntoIterator
-            let mut it2 = x.into_iter();
-            let mut into_toks = vec![];
-            let len0 = it2.len();
-            while let Some(o) = it2.next() {
-                into_toks.push(format!("{},{}", txout_fields(inp, &o), it2.len()));
+            if !iter_part.contains("x_iterpanic") {
+                // IntoIterator
+                let mut it2 = x.into_iter();
+                let mut into_toks = vec![];
+                let len0 = it2.len();
+                while let Some(o) = it2.next() {
+                    into_toks.push(format!("{},{}", txout_fields(inp, &o), it2.len()));
+                }
+                write!(s, " x_intoiter_eq={} x_hint_ok={} x_iter_ended={} x_into_len0={}", (into_toks == iter_toks) as u8, hint_ok as u8, ended as u8, len0).unwrap();
+                let (_, allocs) = count_allocs(|| { let mut n = 0u64; for o in x.iter() { n ^= o.value() ^ o.script_pubkey().len() as u64; } n });
+                write!(s, " x_alloc_iter={}", allocs).unwrap();
             }
-            write!(s, " x_intoiter_eq={} x_hint_ok={} x_iter_ended={} x_into_len0={}", (into_toks == iter_toks) as u8, hint_ok as u8, ended as u8, len0).unwrap();
-            let (_, allocs) = count_allocs(|| { let mut n = 0u64; for o in x.iter() { n ^= o.value() ^ o.script_pubkey().len() as u64; } n });
-            write!(s, " x_alloc_iter={}", allocs).unwrap();
             // database encoding (C20)
             let ab = <bsl::TxOuts as RedbValue>::as_bytes(x);
             let same = ab.as_ptr() == x.as_ref().as_ptr() && ab.len() == x.as_ref().len();
@@ -968,13 +975,6 @@ fn run_block(inp: &[u8], brk: i64) -> String {
         let mut found = String::new();
         s.push_str(&rb_tokens::<bitcoin::Block>(inp, r.as_ref().ok().map(|p| p.consumed()), |b| {
             let x = r.as_ref().unwrap().parsed();
-            cmp_header(inp, x.header(), &b.header)?;
-            if x.block_hash().to_byte_array() != b.block_hash().to_byte_array() { return Err("block.block_hash".into()); }
-            if done.len() != b.txdata.len() { return Err("n_txs".into()); }
-            if x.total_transactions() != b.txdata.len() { return Err("total_transactions".into()); }
-            for (i, (d, t)) in done.iter().zip(b.txdata.iter()).enumerate() {
-                cmp_tx(d, t).map_err(|e| format!("tx{}.{}", i, e))?;
-            }
             // C19: FindTransaction for every txid present (first of duplicates) and an absent one
             let view = x.as_ref();
             let mut ok = true;
@@ -999,6 +999,13 @@ fn run_block(inp: &[u8], brk: i64) -> String {
                 }
             }
             found = if ok { " x_find=1".to_string() } else { format!(" x_find=0 x_findwhy={}", why) };
+            cmp_header(inp, x.header(), &b.header)?;
+            if x.block_hash().to_byte_array() != b.block_hash().to_byte_array() { return Err("block.block_hash".into()); }
+            if done.len() != b.txdata.len() { return Err("n_txs".into()); }
+            if x.total_transactions() != b.txdata.len() { return Err("total_transactions".into()); }
+            for (i, (d, t)) in done.iter().zip(b.txdata.iter()).enumerate() {
+                cmp_tx(d, t).map_err(|e| format!("tx{}.{}", i, e))?;
+            }
             Ok(())
         }));
         s.push_str(&found);
